@@ -252,7 +252,11 @@ class Gen:
             return [("print", [self.expr(self.pick(KINDS), sc, d) for _ in range(1 if self.chance(0.7) else 2)])]
         if r < 0.42:
             v = self.pick(vs)
-            return self.assign_stmts(sc, v.name, v.kind, self.expr(v.kind, sc, d), True)
+            e = self.expr(v.kind, sc, d)
+            if self.loop_depth > 0 and v.kind in ("str", "list", "tuple", "map") and self.reads(e, v.name):
+                # no self-referential growth inside loops (x = x + x doubles per iteration)
+                e = self.leaf(v.kind, Scope())
+            return self.assign_stmts(sc, v.name, v.kind, e, True)
         if r < 0.5:
             nums = [v for v in vs if v.kind in ("int", "float")]
             if nums:
@@ -396,4 +400,299 @@ class Gen:
         for v in printable[:6]:
             out.append(("print", [("var", v.name)]))
         out.append(self.expr(self.pick(["int", "str", "list", "tuple", "map", "bool", "float"]), sc, 1))
+        return out
+
+
+# =================================================================================================
+# fn profile (C02): functions, closures, generators
+# =================================================================================================
+class FnSig:
+    __slots__ = ("params", "n_req", "n_opt", "variadic", "ret", "is_gen", "method_of")
+    def __init__(self, params, n_req, n_opt, variadic, ret, is_gen=False, method_of=None):
+        self.params, self.n_req, self.n_opt, self.variadic, self.ret, self.is_gen, self.method_of = params, n_req, n_opt, variadic, ret, is_gen, method_of
+
+class GenFn(Gen):
+    """Adds function definitions, call forms, closures, recursion and generators to the core profile."""
+    def __init__(self, rng, **kw):
+        super().__init__(rng, **kw)
+        self.features = set(self.features) | {"fn"}
+        self.fn_nesting = 0
+
+    # ---- definitions ------------------------------------------------------------------------
+    def free_names(self, body, params_names):
+        names = set()
+        def walk(e):
+            if isinstance(e, tuple):
+                if e and e[0] == "var":
+                    names.add(e[1]); return
+                if e and e[0] == "fn":
+                    for x in e[5]: names.add(x)
+                    for _, dflt in e[1]:
+                        if dflt is not None: walk(dflt)
+                    return
+                for x in e: walk(x)
+            elif isinstance(e, list):
+                for x in e: walk(x)
+        walk(body)
+        return sorted(n for n in names if n not in params_names)
+
+    def make_params(self, sc, d):
+        """Returns (param nodes, bound vars [(name, kind)], sig shape list)."""
+        params, bound, shapes = [], [], []
+        n_req = self.rng.randint(0, 3)
+        for _ in range(n_req):
+            r = self.rng.random()
+            if r < 0.65:
+                n = self.fresh("a"); params.append((("var", n), None)); bound.append((n, "int")); shapes.append("int")
+            elif r < 0.75:
+                params.append((("ignore",), None)); shapes.append("int")
+            elif r < 0.85:
+                a, b = self.fresh("a"), self.fresh("a")
+                params.append((("tpat", [("var", a), ("var", b)]), None)); bound += [(a, "int"), (b, "int")]; shapes.append("pair")
+            elif r < 0.93:
+                a, rest = self.fresh("a"), self.fresh("a")
+                if self.chance(0.5):
+                    params.append((("tpat", [("var", a), ("rest", rest)]), None))
+                else:
+                    params.append((("tpat", [("rest", rest), ("var", a)]), None))
+                bound += [(a, "int"), (rest, "tuple")]; shapes.append("seq1")
+            else:
+                a, b = self.fresh("a"), self.fresh("a")
+                params.append((("mpat", [("x", a), ("y", b)]), None)); bound += [(a, "int"), (b, "int")]; shapes.append("mapxy")
+        n_opt = self.rng.randint(0, 2) if self.chance(0.5) else 0
+        for _ in range(n_opt):
+            n = self.fresh("a")
+            dflt = self.expr("int", sc, d + 2)
+            if self.chance(0.5):
+                dflt = ("trace", self.next_trace(), dflt)
+            params.append((("var", n), dflt)); bound.append((n, "int")); shapes.append("int")
+        variadic = None
+        if self.chance(0.25):
+            variadic = self.fresh("xs"); bound.append((variadic, "tuple"))
+        return params, bound, shapes, n_req, n_opt, variadic
+
+    def fn_scope(self, sc, bound):
+        """Scope inside a function body: parameters plus read-only copies of the enclosing names (captured by copy);
+        lists and maps reached through captures stay shared and may be mutated through methods."""
+        inner = Scope(sc)
+        for v in sc.all():
+            inner.vars[v.name] = Var(v.name, v.kind, protected=True, elem=v.elem, keys=v.keys)
+        for n, k in bound:
+            inner.vars[n] = Var(n, k)
+        return inner
+
+    def def_function(self, sc, d):
+        name = self.fresh("f")
+        params, bound, shapes, n_req, n_opt, variadic = self.make_params(sc, d)
+        inner = self.fn_scope(sc, bound)
+        self.fn_nesting += 1
+        saved_loop, self.loop_depth = self.loop_depth, 0
+        saved_used, self.loop_value_used = self.loop_value_used, []
+        try:
+            body = []
+            for _ in range(self.rng.randint(0, 3)):
+                if self.budget < 0: break
+                body += self.stmt(inner, d + 1)
+            if self.chance(0.25):
+                cond = self.expr("bool", inner, d + 2)
+                body.append(("if", [(cond, [("return", self.expr("int", inner, d + 2))])], None, "block"))
+            if variadic and self.chance(0.7):
+                body.append(("bin", "+", self.expr("int", inner, d + 1), ("call", ("var", "size"), [("var", variadic)])))
+            else:
+                body.append(self.expr("int", inner, d + 1))
+        finally:
+            self.fn_nesting -= 1
+            self.loop_depth = saved_loop
+            self.loop_value_used = saved_used
+        pnames = {n for n, _ in bound}
+        node = ("fn", params, variadic, body, False, self.free_names(body, pnames) , "block" if self.chance(0.5) else None)
+        sig = FnSig(shapes, n_req, n_opt, variadic is not None, "int")
+        sc.vars[name] = Var(name, "fn_int", protected=True, keys=sig)
+        return [("assign", ("var", name), node)]
+
+    def def_recursive(self, sc, d):
+        name = self.fresh("rec")
+        n = self.fresh("n")
+        acc = self.expr("int", self.fn_scope(sc, [(n, "int")]), d + 2)
+        body = [("if", [(("bin", "<=", ("var", n), ("int", 0)), [acc])],
+                 [("bin", self.pick(["+", "*", "-"]), ("var", n), ("call", ("var", name), [("bin", "-", ("var", n), ("int", 1))]))])]
+        node = ("fn", [(("var", n), None)], None, body, False, self.free_names(body, {n}), None)
+        sig = FnSig(["small"], 1, 0, False, "int")
+        sc.vars[name] = Var(name, "fn_int", protected=True, keys=sig)
+        return [("assign", ("var", name), node)]
+
+    def def_factory(self, sc, d):
+        name = self.fresh("mk")
+        a, b = self.fresh("a"), self.fresh("b")
+        inner = self.fn_scope(sc, [(a, "int"), (b, "int")])
+        inner_body = [self.expr("int", inner, d + 2)]
+        inner_fn = ("fn", [(("var", b), None)], None, inner_body, False, self.free_names(inner_body, {b}), None)
+        node = ("fn", [(("var", a), None)], None, [inner_fn], False, self.free_names([inner_fn], {a}), None)
+        made = self.fresh("f")
+        sig = FnSig(["int"], 1, 0, False, "int")
+        sc.vars[name] = Var(name, "opaque", protected=True)
+        arg = self.expr("int", sc, d + 1)
+        sc.vars[made] = Var(made, "fn_int", protected=True, keys=sig)
+        return [("assign", ("var", name), node), ("assign", ("var", made), ("call", ("var", name), [arg]))]
+
+    def def_method_map(self, sc, d):
+        name = self.fresh("obj")
+        n = self.fresh("n")
+        field = self.pick(["v", "count"])
+        inner = self.fn_scope(sc, [(n, "int")])
+        get_body = [("bin", "+", ("access", ("self",), field), self.expr("int", self.fn_scope(sc, []), d + 2))]
+        add_body = [("opassign", "+", ("access", ("self",), field), ("var", n)), ("access", ("self",), field)]
+        m = ("map", [(field, self.expr("int", sc, d + 1)),
+                     ("get", ("fn", [], None, get_body, False, self.free_names(get_body, set()), None)),
+                     ("add", ("fn", [(("var", n), None)], None, add_body, False, self.free_names(add_body, {n}), "block"))])
+        sc.vars[name] = Var(name, "obj", protected=True, keys=field)
+        return [("assign", ("var", name), m)]
+
+    def def_generator(self, sc, d):
+        name = self.fresh("g")
+        n = self.fresh("n")
+        inner = self.fn_scope(sc, [(n, "int")])
+        i = self.fresh("i")
+        r = self.rng.random()
+        if r < 0.4:
+            inner.vars[i] = Var(i, "int", protected=True)
+        y1 = ("yield", self.maybe_trace(self.expr("int", inner, d + 2)))
+        if r < 0.4:
+            body = [("for", [("var", i)], ("range", ("int", 0), ("var", n), False), [y1] + ([("if", [(self.expr("bool", inner, d + 2), [("yield", self.expr("int", inner, d + 2))])], None, "block")] if self.chance(0.4) else []))]
+        elif r < 0.6:
+            body = [y1, ("yield", self.expr("int", inner, d + 2)), ("if", [(self.expr("bool", inner, d + 2), [("return", None)])], None, "block"), ("yield", ("var", n))]
+        elif r < 0.8:
+            c = self.fresh("c")
+            body = [("assign", ("var", c), ("int", 0)), ("while", ("bin", "<", ("var", c), ("var", n)), [("opassign", "+", ("var", c), ("int", 1)), ("yield", ("bin", "*", ("var", c), self.expr("int", inner, d + 2)))])]
+        else:
+            body = [("try", [y1, ("throw", ("str", ["boom"])), ("yield", ("int", -1))], [(("var", "e"), None, [("yield", self.expr("int", inner, d + 2))])], [("yield", ("int", 99))] if self.chance(0.5) else None)]
+        node = ("fn", [(("var", n), None)], None, body, True, self.free_names(body, {n, i}), "block")
+        sc.vars[name] = Var(name, "gen", protected=True)
+        return [("assign", ("var", name), node)]
+
+    # ---- calls ------------------------------------------------------------------------------
+    def arg_for(self, shape, sc, d):
+        if shape == "int": return self.expr("int", sc, d + 1)
+        if shape == "small": return ("int", self.rng.randint(0, 5))
+        if shape == "pair":
+            items = [self.expr("int", sc, d + 1), self.expr("int", sc, d + 1)]
+            return ("tuple", items) if self.chance(0.6) else ("list", items)
+        if shape == "seq1":
+            items = [self.expr("int", sc, d + 1) for _ in range(self.rng.randint(1, 4))]
+            return ("tuple", items) if self.chance(0.6) else ("list", items)
+        if shape == "mapxy":
+            entries = [("x", self.expr("int", sc, d + 1)), ("y", self.expr("int", sc, d + 1))]
+            if self.chance(0.3): entries.append(("z", ("int", 0)))
+            self.rng.shuffle(entries)
+            return ("map", entries)
+        raise ValueError(shape)
+
+    def call_args(self, sig, sc, d, wrong=False):
+        n = sig.n_req + self.rng.randint(0, sig.n_opt)
+        args = [self.arg_for(sig.params[i], sc, d) for i in range(n)]
+        if sig.variadic and n == sig.n_req + sig.n_opt:
+            args += [self.expr("int", sc, d + 1) for _ in range(self.rng.randint(0, 3))]
+        if wrong:
+            if sig.n_req > 0 and self.chance(0.5):
+                args = args[:sig.n_req - 1]
+            elif not sig.variadic:
+                args = args + [("int", 0)] * (sig.n_req + sig.n_opt - len(args) + 1)
+        return args
+
+    def call_fn(self, sc, d):
+        fns = sc.of_kind("fn_int")
+        f = self.pick(fns)
+        sig = f.keys
+        args = self.call_args(sig, sc, d)
+        r = self.rng.random()
+        if r < 0.15 and args and all(sig.params[i] == "int" for i in range(min(len(args), len(sig.params)))) and len(args) <= len(sig.params):
+            # packed call: f xs...
+            k = self.rng.randint(0, len(args))
+            packed = ("list", args[k:]) if self.chance(0.5) else ("tuple", args[k:])
+            return ("call", ("var", f.name), args[:k] + [("spread", packed)])
+        if r < 0.3 and args and len(args) <= 2:
+            # a -> f b   (SG-A6: the piped value is a variable or literal, never a temporary; inside parentheses a
+            # paren-free call takes one argument only, so nested pipes carry at most one extra argument)
+            return ("pipe", args[0], ("var", f.name), args[1:])
+        return ("call", ("var", f.name), args)
+
+    def x_int(self, sc, d):
+        if sc.of_kind("fn_int") and self.chance(0.25) and self.fn_nesting < 2:
+            return self.call_fn(sc, d)
+        objs = sc.of_kind("obj")
+        if objs and self.chance(0.1):
+            o = self.pick(objs)
+            if self.chance(0.5):
+                return ("mcall", ("var", o.name), "get", [])
+            return ("mcall", ("var", o.name), "add", [self.expr("int", sc, d + 1)])
+        return super().x_int(sc, d)
+
+    def x_tuple(self, sc, d):
+        gens = sc.of_kind("gen")
+        if gens and self.chance(0.3):
+            g = self.pick(gens)
+            return ("mcall", ("call", ("var", g.name), [("int", self.rng.randint(0, 4))]), "to_tuple", [])
+        return super().x_tuple(sc, d)
+
+    def x_list(self, sc, d):
+        gens = sc.of_kind("gen")
+        if gens and self.chance(0.2):
+            g = self.pick(gens)
+            return ("mcall", ("call", ("var", g.name), [("int", self.rng.randint(0, 4))]), "to_list", [])
+        return super().x_list(sc, d)
+
+    def stmt(self, sc, d):
+        r = self.rng.random()
+        if self.fn_nesting == 0 and d == 0 and r < 0.3:
+            k = self.rng.random()
+            if k < 0.45: return self.def_function(sc, d)
+            if k < 0.55: return self.def_recursive(sc, d)
+            if k < 0.7: return self.def_factory(sc, d)
+            if k < 0.8: return self.def_method_map(sc, d)
+            return self.def_generator(sc, d)
+        if self.fn_nesting == 1 and r < 0.06 and d <= 2:
+            return self.def_function(sc, d)
+        gens = sc.of_kind("gen")
+        if gens and r < 0.4 and self.loop_depth < 2:
+            return self.gen_consume(sc, d, self.pick(gens))
+        fns = sc.of_kind("fn_int")
+        if fns and r < 0.45:
+            f = self.pick(fns)
+            args = self.call_args(f.keys, sc, d)
+            return [("print", [("call", ("var", f.name), args)])]
+        return super().stmt(sc, d)
+
+    def gen_consume(self, sc, d, g):
+        call = ("call", ("var", g.name), [("int", self.rng.randint(0, 4))])
+        r = self.rng.random()
+        if r < 0.4:
+            x = self.fresh("y")
+            inner = Scope(sc); inner.vars = dict(sc.vars)
+            inner.vars[x] = Var(x, "int", protected=True)
+            self.loop_depth += 1
+            self.loop_value_used.append(False)
+            try:
+                body = [("print", [("var", x)])] + (self.body(inner, d, 1) if self.chance(0.5) else [])
+                if self.chance(0.3):
+                    body.insert(0, ("if", [(("bin", ">", ("var", x), self.expr("int", sc, d + 1)), [("break", None)])], None))
+            finally:
+                self.loop_depth -= 1
+                self.loop_value_used.pop()
+            return [("for", [("var", x)], call, body)]
+        if r < 0.7:
+            it = self.fresh("it")
+            sc.vars[it] = Var(it, "opaque", protected=True)
+            out = [("assign", ("var", it), call)]
+            for _ in range(self.rng.randint(1, 3)):
+                tmp = self.fresh("o")
+                sc.vars[tmp] = Var(tmp, "opaque", protected=True)
+                out.append(("assign", ("var", tmp), ("mcall", ("var", it), "next", [])))
+                out.append(("print", [("if", [(("var", tmp), [("mcall", ("var", tmp), "get", [])])], [("str", ["done"])])]))
+            if self.chance(0.5):
+                out.append(("print", [("mcall", ("var", it), "to_tuple", [])]))
+            return out
+        return [("print", [("mcall", call, "to_list", [])])]
+
+    def program(self):
+        out = super().program()
         return out
